@@ -412,10 +412,10 @@ def SarOutOK (env : Env) (o : SarOut) : Prop :=
 
 /-- the answer belongs to a request that was pending -/
 def TokFrom (s : State) (t : TokOut) : Prop :=
-  ∃ p ∈ s.tokPend, p.rid = t.rid ∧ t.host = p.host ∧ t.tok = p.tok ∧ t.inst = some p.inst
+  ∃ p ∈ s.tokPend, p.rid = t.rid ∧ t.host = p.host ∧ t.tok = p.tok ∧ t.inst = some p.inst ∧ t.upstream = p.upstream
 
 def SarFrom (s : State) (t : SarOut) : Prop :=
-  ∃ p ∈ s.sarPend, p.rid = t.rid ∧ t.host = p.host ∧ t.attrs = p.attrs ∧ t.inst = some p.inst
+  ∃ p ∈ s.sarPend, p.rid = t.rid ∧ t.host = p.host ∧ t.attrs = p.attrs ∧ t.inst = some p.inst ∧ t.upstream = p.upstream
 
 theorem tokGet_mem {s : State} {cid : CacheId} {tok : Str} {e : TokEntry} (h : tokGet s cid tok = some e) :
     (cid, tok, e) ∈ s.tokEntries := by
@@ -466,7 +466,7 @@ theorem tokLookup_out {env : Env} {s : State} (h : Inv env s) (rid : Rid) :
           intro o ho
           simp only [List.mem_singleton] at ho
           subst ho
-          refine ⟨_, rfl, ?_, ⟨p, hp.1, hp.2, rfl, rfl, rfl⟩⟩
+          refine ⟨_, rfl, ?_, ⟨p, hp.1, hp.2, rfl, rfl, rfl, rfl⟩⟩
           obtain ⟨h1, h2, h3, h4⟩ := he
           simp only at h1 h2 h3 h4
           rw [hc.2] at h1
@@ -498,7 +498,7 @@ theorem tokReview_out {env : Env} {s : State} (rid : Rid) (ch : Nat) :
         intro o ho
         simp only [List.mem_singleton] at ho
         subst ho
-        refine ⟨_, rfl, ⟨rfl, rfl, ?_⟩, ⟨p, hp.1, hp.2, rfl, rfl, rfl⟩⟩
+        refine ⟨_, rfl, ⟨rfl, rfl, ?_⟩, ⟨p, hp.1, hp.2, rfl, rfl, rfl, rfl⟩⟩
         -- ClientFor never fails with an upstream error
         show TokRes.error k ≠ TokRes.error ErrKind.upstream
         intro e
@@ -512,7 +512,7 @@ theorem tokReview_out {env : Env} {s : State} (rid : Rid) (ch : Nat) :
         · intro o ho
           simp only [List.mem_singleton] at ho
           subst ho
-          exact ⟨_, rfl, ⟨rfl, rfl, by intro e; cases e⟩, ⟨p, hp.1, hp.2, rfl, rfl, rfl⟩⟩
+          exact ⟨_, rfl, ⟨rfl, rfl, by intro e; cases e⟩, ⟨p, hp.1, hp.2, rfl, rfl, rfl, rfl⟩⟩
         · intro o ho; cases ho
     · intro o ho; cases ho
   · intro o ho; cases ho
@@ -525,7 +525,7 @@ theorem tokFinish_out {env : Env} {s : State} (rid : Rid) :
     have hp := findTok_some hf
     split
     · have key : ∀ ep ready, ∃ t, Out.tok ⟨rid, p.host, p.tok, some p.inst, p.upstream, (env.tokO p.inst p.tok s.clock).res, s.clock, .fresh, some ep, ready⟩ = .tok t ∧ TokOutOK env t ∧ TokFrom s t :=
-        fun ep ready => ⟨_, rfl, ⟨rfl, p.inst, rfl, rfl⟩, ⟨p, hp.1, hp.2, rfl, rfl, rfl⟩⟩
+        fun ep ready => ⟨_, rfl, ⟨rfl, p.inst, rfl, rfl⟩, ⟨p, hp.1, hp.2, rfl, rfl, rfl, rfl⟩⟩
       simp only []
       split
       · intro o ho
@@ -576,7 +576,7 @@ theorem sarLookup_out {env : Env} {s : State} (h : Inv env s) (rid : Rid) :
           intro o ho
           simp only [List.mem_singleton] at ho
           subst ho
-          refine ⟨_, rfl, ?_, ⟨p, hp.1, hp.2, rfl, rfl, rfl⟩⟩
+          refine ⟨_, rfl, ?_, ⟨p, hp.1, hp.2, rfl, rfl, rfl, rfl⟩⟩
           obtain ⟨h1, h2, h3⟩ := he
           simp only at h1 h2 h3
           rw [hc.2] at h1
@@ -594,7 +594,7 @@ theorem sarFinish_out {env : Env} {s : State} (rid : Rid) :
     have hp := findSar_some hf
     split
     · have key : ∃ t, Out.sar ⟨rid, p.host, p.attrs, some p.inst, p.upstream, (env.sarO p.inst (specOf p.attrs) s.clock).res, s.clock, .fresh, some p.ep, p.ready⟩ = .sar t ∧ SarOutOK env t ∧ SarFrom s t :=
-        ⟨_, rfl, ⟨rfl, p.inst, rfl, rfl⟩, ⟨p, hp.1, hp.2, rfl, rfl, rfl⟩⟩
+        ⟨_, rfl, ⟨rfl, p.inst, rfl, rfl⟩, ⟨p, hp.1, hp.2, rfl, rfl, rfl, rfl⟩⟩
       simp only []
       split
       · intro o ho
@@ -687,8 +687,10 @@ theorem mem_readyOf {s : State} {c : Inst} {e : Endpoint} (h : e ∈ readyOf s c
 /-! ## requests keep their identity: host, credentials and resolved cluster of a pending request never change,
 and request ids are never reused -/
 
-def TokSame (p p' : TokPend) : Prop := p.rid = p'.rid ∧ p.host = p'.host ∧ p.tok = p'.tok ∧ p.inst = p'.inst
-def SarSame (p p' : SarPend) : Prop := p.rid = p'.rid ∧ p.host = p'.host ∧ p.attrs = p'.attrs ∧ p.inst = p'.inst
+def TokSame (p p' : TokPend) : Prop :=
+  p.rid = p'.rid ∧ p.host = p'.host ∧ p.tok = p'.tok ∧ p.inst = p'.inst ∧ p.upstream = p'.upstream
+def SarSame (p p' : SarPend) : Prop :=
+  p.rid = p'.rid ∧ p.host = p'.host ∧ p.attrs = p'.attrs ∧ p.inst = p'.inst ∧ p.upstream = p'.upstream
 
 /-- after a step the pending token requests are old ones (possibly at another stage) or new ones with a fresh id -/
 def TokPendStep (s s' : State) : Prop :=
@@ -698,30 +700,30 @@ def SarPendStep (s s' : State) : Prop :=
   s.nextRid ≤ s'.nextRid ∧ ∀ p' ∈ s'.sarPend, (∃ p ∈ s.sarPend, SarSame p p') ∨ s.nextRid ≤ p'.rid
 
 theorem tps_same {s s' : State} (h1 : s.nextRid ≤ s'.nextRid) (h2 : s'.tokPend = s.tokPend) : TokPendStep s s' :=
-  ⟨h1, fun p' hp' => Or.inl ⟨p', h2 ▸ hp', rfl, rfl, rfl, rfl⟩⟩
+  ⟨h1, fun p' hp' => Or.inl ⟨p', h2 ▸ hp', rfl, rfl, rfl, rfl, rfl⟩⟩
 
 theorem sps_same {s s' : State} (h1 : s.nextRid ≤ s'.nextRid) (h2 : s'.sarPend = s.sarPend) : SarPendStep s s' :=
-  ⟨h1, fun p' hp' => Or.inl ⟨p', h2 ▸ hp', rfl, rfl, rfl, rfl⟩⟩
+  ⟨h1, fun p' hp' => Or.inl ⟨p', h2 ▸ hp', rfl, rfl, rfl, rfl, rfl⟩⟩
 
 theorem tps_set {s s0 : State} {p : TokPend} {st : TokStage} (hp : p ∈ s.tokPend) (h1 : s.nextRid ≤ s0.nextRid)
     (h2 : s0.tokPend = s.tokPend) : TokPendStep s (setTok s0 { p with stage := st }) := by
   refine ⟨h1, fun p' hp' => ?_⟩
   cases mem_setTok hp' with
-  | inl e => subst e; exact Or.inl ⟨p, hp, rfl, rfl, rfl, rfl⟩
-  | inr e => exact Or.inl ⟨p', h2 ▸ e, rfl, rfl, rfl, rfl⟩
+  | inl e => subst e; exact Or.inl ⟨p, hp, rfl, rfl, rfl, rfl, rfl⟩
+  | inr e => exact Or.inl ⟨p', h2 ▸ e, rfl, rfl, rfl, rfl, rfl⟩
 
 theorem sps_set {s s0 : State} {p : SarPend} {st : SarStage} (hp : p ∈ s.sarPend) (h1 : s.nextRid ≤ s0.nextRid)
     (h2 : s0.sarPend = s.sarPend) : SarPendStep s (setSar s0 { p with stage := st }) := by
   refine ⟨h1, fun p' hp' => ?_⟩
   cases mem_setSar hp' with
-  | inl e => subst e; exact Or.inl ⟨p, hp, rfl, rfl, rfl, rfl⟩
-  | inr e => exact Or.inl ⟨p', h2 ▸ e, rfl, rfl, rfl, rfl⟩
+  | inl e => subst e; exact Or.inl ⟨p, hp, rfl, rfl, rfl, rfl, rfl⟩
+  | inr e => exact Or.inl ⟨p', h2 ▸ e, rfl, rfl, rfl, rfl, rfl⟩
 
 theorem tps_del {s : State} (rid : Rid) : TokPendStep s (delTok s rid) :=
-  ⟨Nat.le_refl _, fun p' hp' => Or.inl ⟨p', mem_delTok hp', rfl, rfl, rfl, rfl⟩⟩
+  ⟨Nat.le_refl _, fun p' hp' => Or.inl ⟨p', mem_delTok hp', rfl, rfl, rfl, rfl, rfl⟩⟩
 
 theorem sps_del {s : State} (rid : Rid) : SarPendStep s (delSar s rid) :=
-  ⟨Nat.le_refl _, fun p' hp' => Or.inl ⟨p', mem_delSar hp', rfl, rfl, rfl, rfl⟩⟩
+  ⟨Nat.le_refl _, fun p' hp' => Or.inl ⟨p', mem_delSar hp', rfl, rfl, rfl, rfl, rfl⟩⟩
 
 theorem evStep_pend (s : State) (e : Ev) :
     (evStep s e).nextRid = s.nextRid ∧ (evStep s e).tokPend = s.tokPend ∧ (evStep s e).sarPend = s.sarPend := by
@@ -742,7 +744,7 @@ theorem tokBegin_pend (env : Env) (s : State) (rid : Rid) (host tok : Str) (ch :
       refine ⟨⟨hn, fun p' hp' => ?_⟩, sps_same hn rfl⟩
       cases mem_setTok hp' with
       | inl e => subst e; exact Or.inr (Nat.le_of_not_lt hlt)
-      | inr e => exact Or.inl ⟨p', e, rfl, rfl, rfl, rfl⟩
+      | inr e => exact Or.inl ⟨p', e, rfl, rfl, rfl, rfl, rfl⟩
 
 theorem sarBegin_pend (env : Env) (s : State) (rid : Rid) (host : Str) (attrs : Attrs) (ch : Nat) (up : Option Inst) :
     TokPendStep s (sarBegin env s rid host attrs ch up).1 ∧ SarPendStep s (sarBegin env s rid host attrs ch up).1 := by
@@ -759,7 +761,7 @@ theorem sarBegin_pend (env : Env) (s : State) (rid : Rid) (host : Str) (attrs : 
       refine ⟨tps_same hn rfl, ⟨hn, fun p' hp' => ?_⟩⟩
       cases mem_setSar hp' with
       | inl e => subst e; exact Or.inr (Nat.le_of_not_lt hlt)
-      | inr e => exact Or.inl ⟨p', e, rfl, rfl, rfl, rfl⟩
+      | inr e => exact Or.inl ⟨p', e, rfl, rfl, rfl, rfl, rfl⟩
 
 theorem tokCache_pend (env : Env) (s : State) (rid : Rid) :
     TokPendStep s (tokCache env s rid).1 ∧ SarPendStep s (tokCache env s rid).1 := by
@@ -993,11 +995,11 @@ theorem step_sar_out {env : Env} {s : State} (h : Inv env s) (st : Step) (t : Sa
 
 /-- request id `rid` has been handed out and, while it is pending as a token request, it is for a host / token /
     resolved cluster satisfying `Q` -/
-def RidTok (rid : Rid) (Q : Str → Str → Inst → Prop) (s : State) : Prop :=
-  rid < s.nextRid ∧ ∀ p ∈ s.tokPend, p.rid = rid → Q p.host p.tok p.inst
+def RidTok (rid : Rid) (Q : Str → Str → Inst → Option Inst → Prop) (s : State) : Prop :=
+  rid < s.nextRid ∧ ∀ p ∈ s.tokPend, p.rid = rid → Q p.host p.tok p.inst p.upstream
 
-def RidSar (rid : Rid) (Q : Str → Attrs → Inst → Prop) (s : State) : Prop :=
-  rid < s.nextRid ∧ ∀ p ∈ s.sarPend, p.rid = rid → Q p.host p.attrs p.inst
+def RidSar (rid : Rid) (Q : Str → Attrs → Inst → Option Inst → Prop) (s : State) : Prop :=
+  rid < s.nextRid ∧ ∀ p ∈ s.sarPend, p.rid = rid → Q p.host p.attrs p.inst p.upstream
 
 theorem ridTok_step {env : Env} {rid : Rid} {Q} {s : State} (h : RidTok rid Q s) (st : Step) :
     RidTok rid Q (step env s st).1 := by
@@ -1005,8 +1007,8 @@ theorem ridTok_step {env : Env} {rid : Rid} {Q} {s : State} (h : RidTok rid Q s)
   refine ⟨Nat.lt_of_lt_of_le h.1 hn, fun p' hp' hr => ?_⟩
   cases hp p' hp' with
   | inl hx =>
-    obtain ⟨p, hpm, h1, h2, h3, h4⟩ := hx
-    rw [← h2, ← h3, ← h4]
+    obtain ⟨p, hpm, h1, h2, h3, h4, h5⟩ := hx
+    rw [← h2, ← h3, ← h4, ← h5]
     exact h.2 p hpm (h1.trans hr)
   | inr hx =>
     rw [hr] at hx
@@ -1018,17 +1020,17 @@ theorem ridSar_step {env : Env} {rid : Rid} {Q} {s : State} (h : RidSar rid Q s)
   refine ⟨Nat.lt_of_lt_of_le h.1 hn, fun p' hp' hr => ?_⟩
   cases hp p' hp' with
   | inl hx =>
-    obtain ⟨p, hpm, h1, h2, h3, h4⟩ := hx
-    rw [← h2, ← h3, ← h4]
+    obtain ⟨p, hpm, h1, h2, h3, h4, h5⟩ := hx
+    rw [← h2, ← h3, ← h4, ← h5]
     exact h.2 p hpm (h1.trans hr)
   | inr hx =>
     rw [hr] at hx
     exact absurd h.1 (Nat.not_lt_of_le hx)
 
-theorem run_tok {env : Env} (rid : Rid) (Q : Str → Str → Inst → Prop) :
+theorem run_tok {env : Env} (rid : Rid) (Q : Str → Str → Inst → Option Inst → Prop) :
     ∀ (steps : List Step) (s : State), Inv env s → RidTok rid Q s →
       ∀ t, Out.tok t ∈ (runSteps env s steps).2 → t.rid = rid →
-        TokOutOK env t ∧ ∃ c, t.inst = some c ∧ Q t.host t.tok c := by
+        TokOutOK env t ∧ ∃ c, t.inst = some c ∧ Q t.host t.tok c t.upstream := by
   intro steps
   induction steps with
   | nil => intro s _ _ t ht; cases ht
@@ -1039,19 +1041,19 @@ theorem run_tok {env : Env} (rid : Rid) (Q : Str → Str → Inst → Prop) :
     | inl h1 =>
       cases step_tok_out hinv st t h1 with
       | inl h2 =>
-        obtain ⟨hok, p, hpm, e1, e2, e3, e4⟩ := h2
+        obtain ⟨hok, p, hpm, e1, e2, e3, e4, e5⟩ := h2
         refine ⟨hok, p.inst, e4, ?_⟩
-        rw [e2, e3]
+        rw [e2, e3, e5]
         exact hrid.2 p hpm (e1.trans hr)
       | inr h2 =>
         rw [hr] at h2
         exact absurd hrid.1 (Nat.not_lt_of_le h2)
     | inr h1 => exact ih _ (inv_step hinv st) (ridTok_step hrid st) t h1 hr
 
-theorem run_sar {env : Env} (rid : Rid) (Q : Str → Attrs → Inst → Prop) :
+theorem run_sar {env : Env} (rid : Rid) (Q : Str → Attrs → Inst → Option Inst → Prop) :
     ∀ (steps : List Step) (s : State), Inv env s → RidSar rid Q s →
       ∀ t, Out.sar t ∈ (runSteps env s steps).2 → t.rid = rid →
-        SarOutOK env t ∧ ∃ c, t.inst = some c ∧ Q t.host t.attrs c := by
+        SarOutOK env t ∧ ∃ c, t.inst = some c ∧ Q t.host t.attrs c t.upstream := by
   intro steps
   induction steps with
   | nil => intro s _ _ t ht; cases ht
@@ -1062,9 +1064,9 @@ theorem run_sar {env : Env} (rid : Rid) (Q : Str → Attrs → Inst → Prop) :
     | inl h1 =>
       cases step_sar_out hinv st t h1 with
       | inl h2 =>
-        obtain ⟨hok, p, hpm, e1, e2, e3, e4⟩ := h2
+        obtain ⟨hok, p, hpm, e1, e2, e3, e4, e5⟩ := h2
         refine ⟨hok, p.inst, e4, ?_⟩
-        rw [e2, e3]
+        rw [e2, e3, e5]
         exact hrid.2 p hpm (e1.trans hr)
       | inr h2 =>
         rw [hr] at h2
@@ -1165,11 +1167,10 @@ mutual
     | .tok hostport tok ch1 ch2 bound mid0 mid1 mid2, r, h => by
       unfold runMacro
       simp only []
-      have h0 := runOK_app h (.ev (.tick 1))
       repeat' split
       all_goals
         repeat (first
-          | exact h0
+          | exact h
           | apply runOK_app
           | apply runOK_macros env mid0
           | apply runOK_macros env mid1
@@ -1177,11 +1178,10 @@ mutual
     | .sar hostport attrs ch bound mid0 mid, r, h => by
       unfold runMacro
       simp only []
-      have h0 := runOK_app h (.ev (.tick 1))
       repeat' split
       all_goals
         repeat (first
-          | exact h0
+          | exact h
           | apply runOK_app
           | apply runOK_macros env mid0
           | apply runOK_macros env mid)
@@ -1482,6 +1482,13 @@ theorem ownReady_of_ok {s : State} {host : Str} {ch : Nat} {c : Inst} {e : Endpo
   cases hr : readyOf s c with
   | nil => rw [hr] at h2; cases h2
   | cons _ _ => simp [hr]
+
+
+theorem boundElsewhere_false {u c : Inst} (h : boundElsewhere true (some u) c = false) : c = u := by
+  unfold boundElsewhere at h
+  simp only [Bool.true_and, Option.isSome_some, ne_eq, Option.some.injEq, decide_not, Bool.not_eq_false',
+    decide_eq_true_eq] at h
+  exact h.symm
 
 
 end KG.Lemmas.AuthCache
